@@ -68,6 +68,18 @@ func init() {
 	}
 	reg(hpkg+"verifBytes", mkBytes("Bytes"))
 	reg(hpkg+"verifString", mkBytes("String"))
+	// verifASCII: a symbolic string of symbolic length <= max whose bytes are printable ASCII
+	// (0x20..0x7E) - stated as assumptions on the byte function, so that no loop over the string forks
+	reg(hpkg+"verifASCII", func(m *Machine, fr *frame, pos token.Pos, fn *ssa.Function, a []Value) Value {
+		v := mkBytes("String")(m, fr, pos, fn, a)
+		s := v.(*Seq)
+		c := m.C
+		for i := 0; i < s.Max; i++ {
+			b := s.At(c.BV(uint64(i), 64))
+			m.Assume(c.And(c.Cmp(smt.OULE, c.BV(0x20, 8), b), c.Cmp(smt.OULE, b, c.BV(0x7E, 8))))
+		}
+		return v
+	})
 	reg(hpkg+"verifAssume", func(m *Machine, _ *frame, _ token.Pos, _ *ssa.Function, a []Value) Value {
 		m.Assume(a[0].(*smt.Term))
 		return nil
